@@ -27,8 +27,11 @@ def main():
     ap.add_argument("--examples", type=int, default=None)
     ap.add_argument("--only", default=None)
     ap.add_argument("--tier", default="quick")
+    ap.add_argument("--seeded", action="store_true", help="run against seeded/<ID>*/patch.diff instead of mutants/<ID>/*.patch")
     args = ap.parse_args()
     patches = sorted(glob.glob(os.path.join(ROOT, "mutants", args.pid, "*.patch")))
+    if args.seeded:  # the independently seeded changes of this property (seeded/<ID>, <ID>-r2, ...)
+        patches = sorted(glob.glob(os.path.join(ROOT, "seeded", args.pid + "*", "patch.diff")))
     if args.only:
         patches = [p for p in patches if args.only in os.path.basename(p)]
     results = []
@@ -66,7 +69,8 @@ def main():
         finally:
             shutil.rmtree(scratch, ignore_errors=True)
     for patch, verdict, detail in results:
-        print(f"{args.pid} {os.path.basename(patch):45s} {verdict:22s} {detail}")
+        name = os.path.basename(os.path.dirname(patch)) if args.seeded else os.path.basename(patch)
+        print(f"{args.pid} {name:45s} {verdict:22s} {detail}")
     return 0 if all(v.startswith("CAUGHT") for _, v, _ in results) else 1
 
 
